@@ -13,6 +13,7 @@ LABEL_POOLS = [
     [3, 7, 1, 0, 12, 5],
     [-1, -2, "a", -3, 1, "b"],                 # hash(-1) == hash(-2) in CPython: distinct labels with equal hashes
     [1000, 257, ("v", 7), "lab", 300.5, 2],    # labels that are not interned singletons: equal objects need not be identical
+    [2.0, 5.0, 1.0, "x", 3.0, 0.0],            # float labels equal to ints other models of the same process use (2.0 == 2)
     [True, "p", False, 7, (0, 1), "q"],        # bool labels are labels (variables named True / False), never constants; no 0/1 beside them
 ]
 MATRIX_POOLS = [[0, 1, 2, 3, 4, 5], [0, 2, 3, 6, 7, 9], [1, 4, 5, 8, 2, 11]]
